@@ -117,6 +117,9 @@ type machine struct {
 	// and drops the callee's changes; a native's callback into a contract faults.
 	vmPending bool
 	thrown    map[int]bool // ids of the contract calls whose callee failed with an exception
+	// iterUnspec: an iterator was consumed after a change of the iterated storage that
+	// was NOT undone; such programs are not generated (nothing is demanded about them)
+	iterUnspec bool
 }
 
 // entry frame of a hand-assembled script: no contract, no storage
@@ -231,6 +234,17 @@ func (m *machine) exec(f *frame, ops []Op) outcome {
 			m.calls++
 			m.st.Destroyed[f.inst] = true
 			m.st.Stor[f.inst] = map[string]string{}
+			// the hash is put on the Policy block list, which revokes the account's vote
+			// (event + distribution of the unclaimed GAS) if it holds NEO - taken from the code
+			if n := m.st.Neo[f.inst]; n > 0 {
+				m.st.Notes = append(m.st.Notes, fmt.Sprintf("NEO:Vote:[%c,null,null,%d]", instNames[f.inst], n))
+				if b := m.st.Bonus[f.inst]; b > 0 {
+					m.st.Bonus[f.inst] = 0
+					m.st.Gas[f.inst] += b
+					m.st.Notes = append(m.st.Notes, fmt.Sprintf("GAS:Transfer:[null,%c,%d]", instNames[f.inst], b))
+					m.calls++
+				}
+			}
 			m.st.Notes = append(m.st.Notes, fmt.Sprintf("MGMT:Destroy:[%c]", instNames[f.inst]))
 			f.log = append(f.log, "null")
 		case 'I':
@@ -246,6 +260,14 @@ func (m *machine) exec(f *frame, ops []Op) outcome {
 			sort.Strings(snap)
 			if out := m.exec(f, o.Body); out != oOK {
 				return out
+			}
+			var now []string
+			for k, v := range m.st.Stor[f.inst] {
+				now = append(now, fmt.Sprintf("[x%x,x%x]", k, v))
+			}
+			sort.Strings(now)
+			if strings.Join(now, " ") != strings.Join(snap, " ") {
+				m.iterUnspec = true // a change survived until consumption: what the iterator yields is not specified here
 			}
 			f.log = append(f.log, snap...)
 			f.log = append(f.log, "14")
@@ -300,6 +322,49 @@ func (m *machine) exec(f *frame, ops []Op) outcome {
 					hs.swallowed++
 				}
 				return oFault
+			}
+		case 'w':
+			// caller -> W (System.Contract.Call, flags All) -> CALLT (token flags All) -> inst.run
+			if f.flags&(fRead|fCall) != fRead|fCall || m.st.Destroyed[o.To] {
+				return oFault
+			}
+			m.calls += 2
+			cf := &frame{inst: o.To, flags: f.flags}
+			if m.light {
+				switch out := m.exec(cf, o.Body); {
+				case out == oFault:
+					return oFault
+				case out == oThrown && o.Src != 't':
+					return oThrown
+				case out == oThrown:
+					m.pending = false
+				}
+				break
+			}
+			snap := m.st.clone()
+			switch m.exec(cf, o.Body) {
+			case oFault:
+				return oFault
+			case oThrown:
+				m.restores++
+				m.thrown[o.ID] = true
+				if stateSig(snap) != stateSig(m.st) {
+					m.undone = true
+				}
+				m.st = snap
+				if o.Src != 't' {
+					return oThrown
+				}
+				m.pending = false // W's CATCH part
+				f.log = append(f.log, "71")
+			default:
+				if m.vmPending && m.pending {
+					m.st = snap
+				}
+				if o.Src == 'f' && m.pending {
+					return oThrown // W's ENDFINALLY rethrows an exception pending in the VM
+				}
+				f.log = append(f.log, "["+strings.Join(cf.log, ",")+"]")
 			}
 		case 'r':
 			if f.flags&(fRead|fCall) != fRead|fCall {
@@ -436,7 +501,8 @@ type Result struct {
 	Restores int    `json:"restores"`
 	Undone   bool   `json:"undone"`
 	// Thrown: ids of the contract calls whose callee failed with an exception
-	Thrown map[int]bool `json:"-"`
+	Thrown     map[int]bool `json:"-"`
+	IterUnspec bool         `json:"-"`
 }
 
 // runModel interprets prog on a copy of init.
@@ -477,7 +543,7 @@ func runModelOpt(init *State, prog []Op, committee bool, hs *hstat, vmPending bo
 			f.log = append(f.log, fmt.Sprint(m.st.Deployed)) // ContractManagement.isContract(UD)
 		}
 	}
-	res := &Result{Calls: m.calls, Restores: m.restores, Undone: m.undone, Thrown: m.thrown}
+	res := &Result{Calls: m.calls, Restores: m.restores, Undone: m.undone, Thrown: m.thrown, IterUnspec: m.iterUnspec}
 	if out != oOK {
 		res.State = init.clone()
 		res.State.Notes = nil
